@@ -263,6 +263,16 @@ class Routine:
                 guards.append((bb, "err", n_err, n_cont))
             elif n_div and n_cont:
                 guards.append((bb, "panic", n_div, n_cont))
+        # `.unwrap()` / `.expect()` applied directly to the Result of a fallible routine of this crate turns that routine's
+        # documented error into a panic: recorded as a panic decision at the call (class UNWRAP)
+        for bb, t in b.calls():
+            if callee_name(t) in ("unwrap", "expect") and "result" in (t["callee"].get("path") or "").lower():
+                a0 = strip(b.call_arg_exprs(bb)[0])
+                if isinstance(a0, tuple) and a0[0] == "call":
+                    tgt_ = (prog.bodies.get(a0[2]) is not None) or any(a0[1] == m_ for (_tr, m_) in TABLE if isinstance(m_, str))
+                    if tgt_ and b.can_reach_return(bb):
+                        guards.append((bb, "panic-unwrap", a0[1], None))
+
         # order: dominance first, then one-way reachability
         def precedes(g1, g2):
             a, b2 = g1[0], g2[0]
@@ -277,6 +287,9 @@ class Routine:
             return ra and not rb
         order = sorted(guards, key=lambda g: sum(1 for h in guards if precedes(h, g)))
         for (bb, kind, bad_succs, conts) in order:
+            if kind == "panic-unwrap":
+                self.exits.append(Exit("panic", b, bb, cls=("UNWRAP", bad_succs)))
+                continue
             t = b.term(bb)
             de = b.switch_discr_expr(bb)
             if mapping:
@@ -1088,7 +1101,11 @@ def rule_r6(ctx, prog, rule="R6", only=None):
                    what="undocumented error exit")
         # no panic may precede a documented error exit
         last_err = max(matched_positions) if matched_positions else -1
-        bad_panics = [x for j, x in enumerate(exits) if x.kind == "panic" and j < last_err]
+        first_err = min(matched_positions) if matched_positions else -1
+        # an assert/panic! may not precede any documented error decision; an unwrapped fallible call may follow the decision that
+        # excludes its failure (the emptiness guard) but not precede every error decision
+        bad_panics = [x for j, x in enumerate(exits) if x.kind == "panic" and
+                      (j < first_err if (x.cls and x.cls[0] == "UNWRAP") else j < last_err)]
         okp = not bad_panics
         ctx.ob(rule, "%s/no-panic-before-error-exits" % fk + ("" if okp else "/found:" + ";".join(cls_text(x) for x in bad_panics)),
                okp, bad_panics[0].body.where(bad_panics[0].bb, "term") if bad_panics else body.where(),
